@@ -36,6 +36,7 @@ namespace
         int delay_ms = 0;
         std::vector<size_t> cuts; // dribble segmentation of the response
         int gap_us = 0;
+        bool keep_serving = false; // NeverAnswer only: this request gets no answer, later ones on the connection do
     };
 
     struct ServerState
@@ -101,6 +102,8 @@ namespace
                 std::lock_guard<std::mutex> g(g_srv.m);
                 g_srv.violations.push_back("request " + tag + " carries the body " + printable(m.body, 40));
             }
+            if (p.b == NeverAnswer && p.keep_serving)
+                continue; // no answer to this one; whatever the client sends next on this connection is served
             if (p.b == NeverAnswer)
             {
                 // hold the connection; the client gives up by time-out.  Watch for a second request meanwhile.
@@ -267,8 +270,38 @@ namespace verif
                 rep.label("timeout-with-timed-requests-queued");
             }
             kinds.insert(int(p.b));
-            if (i < 8)
-                desc += r.tag + ":" + BNAMES[p.b] + (r.timeout_ms ? "(timeout " + std::to_string(r.timeout_ms) + "ms)" : "") + " ";
+        }
+        auto describe = [&] {
+            std::string d;
+            for (unsigned i = 0; i < n && i < 8; ++i)
+                d += reqs[i].tag + ":" + BNAMES[reqs[i].plan.b] + (reqs[i].plan.keep_serving ? "+connection-keeps-serving" : "") + (reqs[i].timeout_ms ? "(timeout " + std::to_string(reqs[i].timeout_ms) + "ms)" : "") + " ";
+            return d;
+        };
+        desc = describe();
+        // "hanging head" shape (derived from the request count already drawn, no further choice consumed):
+        // a connection limit of 1 or 2 whose connections are first taken by requests that are never
+        // answered (or answered late) and time out after 300-400 ms, so that every other request of the
+        // batch is still waiting in the client's overflow queue when a time-out fires and hands its
+        // connection on.  Mostly never-answered heads: a late answer triggers the known finding first.
+        if (n >= 4 && n % 3 == 0)
+        {
+            maxconn = 1 + int((n / 3) % 2);
+            for (int i = 0; i < maxconn; ++i)
+            {
+                Req& r       = reqs[size_t(i)];
+                r.thread     = 0;
+                r.gap_ms     = 0;
+                r.timeout_ms = 300 + 100 * (i % 2);
+                r.plan       = Plan();
+                r.plan.b     = (n / 6) % 3 == 2 ? LateAnswer : NeverAnswer;
+                if (r.plan.b == LateAnswer)
+                    r.plan.delay_ms = r.timeout_ms + 250;
+                else
+                    r.plan.keep_serving = true; // the connection stays usable: what the client sends on it after the time-out is answered
+                kinds.insert(int(r.plan.b));
+            }
+            rep.label("hanging-head(requests queued when a time-out fires)");
+            desc = "[hanging head: the first " + std::to_string(maxconn) + " request(s) time out while the rest is queued] " + describe();
         }
         std::string cfg = "client threads=" + std::to_string(cthreads) + " maxConnectionsPerHost=" + std::to_string(maxconn) + " requests=" + std::to_string(n) + " user threads=" + std::to_string(uthreads);
         rep.label("maxconn=" + std::to_string(maxconn));
@@ -392,6 +425,10 @@ namespace verif
         {
             std::lock_guard<std::mutex> g(rm);
             std::lock_guard<std::mutex> g2(g_srv.m);
+            if (getenv("VERIF_DEBUG"))
+                for (auto& r : reqs)
+                    fprintf(stderr, "  REQ %s %s timeout=%d fulfilled=%d rejected=%d(%s) received=%d answered=%d\n", r.tag.c_str(), BNAMES[r.plan.b], r.timeout_ms, int(r.fulfilled), int(r.rejected), r.reject_what.c_str(),
+                            int(g_srv.received_at.count(r.tag)), int(g_srv.answered_at.count(r.tag)));
             for (auto& r : reqs)
             {
                 std::string who = cfg + ": request " + r.tag + " [" + BNAMES[r.plan.b] + (r.timeout_ms ? ", timeout " + std::to_string(r.timeout_ms) + " ms" : "") + "]";
